@@ -183,14 +183,15 @@ def check(prop, tier, only=None, nproc=None, write_evidence=True):
         if want - seen:
             print(f"INCONCLUSIVE {prop} {obname}: expected library functions never executed: {sorted(want - seen)}", file=sys.stderr)
             code = max(code, 2) if code != 1 else 1
-    os.makedirs(os.path.join(ROOT, "replays"), exist_ok=True)
+    OUT = os.environ.get("VERIF_OUT", ROOT)    # tooling (seed detection runs) redirects replays and evidence away from /verif
+    os.makedirs(os.path.join(OUT, "replays"), exist_ok=True)
     nrep = 0
     for r in results:
         for c in r.get("cex", []):
             if c.get("reproduced"):
                 nrep += 1
                 name = f"{prop}-{r['ob']}-{nrep}.json"
-                path = os.path.join(ROOT, "replays", name)
+                path = os.path.join(OUT, "replays", name)
                 with open(path, "w") as f:
                     json.dump(dict(property=prop, module=[i for i in instances if i["ob"] == r["ob"]][0]["module"], ob=r["ob"],
                                    params=r["params"], claim=c["claim"], inputs=c["inputs"], uf=c.get("uf", {}),
@@ -217,8 +218,8 @@ def check(prop, tier, only=None, nproc=None, write_evidence=True):
     agg["violations"] = nrep
     agg["exit_code"] = code
     if write_evidence and not only:
-        os.makedirs(os.path.join(ROOT, "evidence"), exist_ok=True)
-        with open(os.path.join(ROOT, "evidence", f"{prop}.json"), "w") as f:
+        os.makedirs(os.path.join(OUT, "evidence"), exist_ok=True)
+        with open(os.path.join(OUT, "evidence", f"{prop}.json"), "w") as f:
             json.dump(agg, f, indent=1)
     s = agg["coverage"]
     print(f"{prop} {tier}: instances={len(instances)} paths={s['states']} decisions={s['transitions']} obligations={s['obligations']} "
